@@ -57,7 +57,7 @@ pub fn digests(seed: u64, n: usize) -> Vec<String> {
         t.aslr = false; // the uncontrolled witness is excluded from the determinism proof by definition
         let dir = scratch_dir();
         std::fs::write(dir.join("x.fml"), &source).unwrap();
-        let plan = match rng.below(4) { 0 => "o:*:l:2;f:*:l:3;r:*:l:5".to_string(), 1 => format!("o:{}:e:0;r:0:s:1;i:0:s:1;f:1:b:0", rng.below(3)), 2 => "i:*:l:1".to_string(), _ => String::new() };
+        let plan = match rng.below(7) { 4 => format!("o:{}:x:{}", rng.below(3), rng.pick(&[28u32, 32, 5])), 5 => format!("o:*:l:3;o:{}:y:11;f:{}:y:5", 1 + rng.below(5), rng.below(3)), 6 => format!("r:{a}:y:5;i:{a}:x:5;f:{b}:s:1;f:{c}:x:28", a = rng.below(2), b = rng.below(2), c = 2 + rng.below(3)), 0 => "o:*:l:2;f:*:l:3;r:*:l:5".to_string(), 1 => format!("o:{}:e:0;r:0:s:1;i:0:s:1;f:1:b:0", rng.below(3)), 2 => "i:*:l:1".to_string(), _ => String::new() };
         let mut c = if t.via_stdin { Child::new(t.profile, &["run", "--heap-log", "h.csv", "--heap-size", "3"]) } else { Child::new(t.profile, &["run", "x.fml", "--heap-log", "h.csv"]) };
         if t.via_stdin { c.stdin = In::File("x.fml".into()); }
         c.env = t.env.clone();
